@@ -278,6 +278,8 @@ class Scheduler:
         return t
 
     def yield_(self, t: int, status: str = "ready", lock: Any = None) -> None:
+        if self.aborting:              # e.g. a `finally:` line executed while the Abort unwinds the thread
+            raise Abort()
         self.status[t] = status
         self.blocked_on[t] = lock
         nxt = self._pick(t)
@@ -305,6 +307,8 @@ class Scheduler:
         return None
 
     def _local_trace(self, frame, event, arg):
+        if self.aborting:
+            return None
         if event == "line":
             t = current_tid()
             d = self.depth[t]
